@@ -135,6 +135,12 @@ var plrmLoopCases = []struct{ prog, want string }{
 	{"0 1 1 4 {add} for", "10"}, {"1 2 6 {} for", "1 3 5"}, {"3 -1 1 {} for", "3 2 1"}, {"1 1 0 {} for", ""}, {"5 1 5 {} for", "5"},
 	{"0 4611686018427387904 9223372036854775807 {} for", "0 4611686018427387904"}, {"9223372036854775806 1 9223372036854775807 {} for", "9223372036854775806 9223372036854775807"},
 	{"-9223372036854775807 -1 -9223372036854775808 {} for", "-9223372036854775807 -9223372036854775808"},
+	// limit and initial value more than 2^63 apart: the number of rounds does not fit a machine word difference
+	{"-9223372036854775808 4611686018427387904 4611686018427387904 {} for", "-9223372036854775808 -4611686018427387904 0 4611686018427387904"},
+	{"9223372036854775807 -4611686018427387904 -4611686018427387904 {} for", "9223372036854775807 4611686018427387903 -1"},
+	{"-9223372036854775808 9223372036854775807 9223372036854775807 {} for", "-9223372036854775808 -1 9223372036854775806"},
+	{"-9223372036854775808 1 -9223372036854775806 {} for", "-9223372036854775808 -9223372036854775807 -9223372036854775806"},
+	{"9223372036854775807 -9223372036854775808 -9223372036854775808 {} for", "9223372036854775807 -1"},
 	{"4 {7} repeat", "7 7 7 7"}, {"0 {7} repeat", ""}, {"[1 2 3] {10 mul} forall", "10 20 30"}, {"(AB) {} forall", "65 66"}, {"<C3A9> {} forall", "195 169"}, {"<80FF41> {} forall", "128 255 65"}, {"0 {1 add dup 3 eq {exit} if} loop", "3"},
 	{"1 1 3 {2 {dup exit} repeat} for", "1 1 2 2 3 3"},
 	// PLRM 8.2 `for`: real operands (its own example: 3 -.5 1 {} for)
@@ -153,6 +159,7 @@ func suiteControl(o *suiteOut, r *rng, tier string, n int) {
 	}
 	// programs with the final operand stack the PLRM prescribes (numbers only)
 	for _, c := range plrmLoopCases {
+		p.run(100000, false, c.prog) // also against the model
 		line := runCaseLine(100000, false, c.prog)
 		_, intp, class := runProgram(100000, false, []byte(c.prog))
 		var got []string
@@ -379,6 +386,24 @@ func suiteBudget(o *suiteOut, r *rng, tier string, n int) {
 			runsLine(o, 1000, true, h[cut:])
 		}
 		o.count("start-check histories")
+	}
+	// a refused or failing eexec restores the dictionary stack (it pushes systemdict before it looks at the data)
+	for _, prog := range []string{"currentfile eexec", "currentfile eexec ab", "currentfile eexec \x01\x02", "1 dict begin currentfile eexec", "currentfile eexec zz 1 2",
+		"{ currentfile eexec } stopped", "errordict /ioerror { } put currentfile eexec 1", "18 { 1 dict begin } repeat currentfile eexec"} {
+		p.run(100000, false, prog)
+		_, intp, _ := runProgram(100000, false, []byte(prog))
+		want := 2 + strings.Count(prog, "1 dict begin")
+		if strings.HasPrefix(prog, "18 {") {
+			want = 20
+		}
+		if intp != nil && len(intp.DictStack) != want {
+			o.fail("C11", "an eexec that is refused or fails leaves the dictionary stack as it was", runCaseLine(100000, false, prog), fmt.Sprint(want), fmt.Sprint(len(intp.DictStack)))
+		}
+		o.count("failing eexec")
+	}
+	for _, h := range [][]string{{"currentfile eexec", "currentfile eexec", "currentfile eexec", "10 dict begin /a 1 def a end"}, {"currentfile eexec zz", "1", "currentfile eexec"}} {
+		runsAllLine(o, 100000, false, h)
+		o.count("histories with failing eexec")
 	}
 	// histories under a budget: every call is made whatever the earlier ones returned; the exported counter never
 	// passes N+1, the stacks are not touched once the budget is used up, and the error stays the budget error
